@@ -346,6 +346,18 @@ impl PossibleCycles {
     }
 }
 
+#[cfg(any(rust_cc_verif, kani))]
+impl PossibleCycles {
+    /// An empty buffer reporting `size` buffered objects (verification kernels only).
+    #[inline]
+    pub(crate) fn verif_with_size(size: usize) -> Self {
+        Self {
+            first: Cell::new(None),
+            size: Cell::new(size),
+        }
+    }
+}
+
 impl Drop for PossibleCycles {
     #[inline]
     fn drop(&mut self) {
